@@ -427,6 +427,18 @@ Proof.
   apply all_safe_firstn, history_safe; assumption.
 Qed.
 
+(* as long as the retention has removed nothing (count limit off, or not reached), nothing at all is
+   lost: in particular a complete original that a kill inside the compression window left next to an
+   unfinished .gz outlives every rotation of the sinks started afterwards *)
+Corollary idle_retention_keeps_all src c flt d0 rs k r : src_good src -> wf_fs d0 ->
+  retired d0 (firstn k (history_steps src c flt d0 rs)) = [] ->
+  holds d0 r \/ In r (flushed d0 (firstn k (history_steps src c flt d0 rs))) ->
+  holds (crash_dir d0 (history_steps src c flt d0 rs) k) r.
+Proof.
+  intros G Hwf Hn Hr. destruct (no_loss_history src c flt d0 rs k r G Hwf Hr) as [H|H]; [exact H|].
+  rewrite Hn in H. destruct H.
+Qed.
+
 (* one rotating write in isolation (the statement of DESIGN 4/C10 theorem 1 and 2) *)
 Theorem no_loss_rotation src c flt ev opened d k r : src_good src -> wf_fs d -> holds d r ->
   holds (run_steps d (firstn k (rotate_prog src c flt ev opened d))) r
